@@ -107,16 +107,7 @@ def run_virtual_case(case) -> Result:
     else:
         reply = REPLY
 
-    class L(vloop.VLoop):
-        def _play(self, tr, request):
-            if callable(self.reply):
-                saved = self.reply
-                self.reply = saved(request)
-                try:
-                    return vloop.VLoop._play(self, tr, request)
-                finally:
-                    self.reply = saved
-            return vloop.VLoop._play(self, tr, request)
+    L = vloop.VLoop      # (a callable reply is computed from the request actually sent)
 
     async def call(loop):
         if via == "client":
